@@ -95,17 +95,25 @@ def _direct_raises(pc):
 
 
 # --------------------------------------------------------------------------------------------- composites
-def check_names(ctx, repo):
+def check_names(ctx, repo, rule="R2"):
     mod = repo.module(META)
     fn = repo.func(META, "_HeterogenousMetaEstimator._check_names")
     pc = PathConditions(fn, Atomizer())
     ats = atoms_of(pc.raises)
     U = _pick(ats, lambda a: a.startswith("eq(len(") and "set(" in a)
-    C = _pick(ats, lambda a: "get_params(deep=False)" in a and "value='__'" not in a)
-    S = _pick(ats, lambda a: "value='__'" in a and "ops=[In()]" in a and "get_params" not in a)
+    C = _pick(ats, lambda a: "get_params(" in a and "value='__'" not in a)
+    S = _pick(ats, lambda a: "value='__'" in a and "get_params" not in a)
+    if C is not None and "get_params(deep=False)" not in C:
+        ctx.violation(rule, "_check_names:predicate", "names are compared with `%s`; the property requires the estimator's own constructor "
+                      "arguments (get_params(deep=False))" % C[:120], ctx.loc(mod, fn))
+        return
+    if S is not None and "ops=[In()]" not in S:
+        ctx.violation(rule, "_check_names:predicate", "the separator test is not `'__' in name` (%s): names containing `__` are accepted" % S[:160],
+                      ctx.loc(mod, fn), witness={"names": ["a__b"]})
+        return
     need = {"duplicate names": U, "names equal to constructor arguments (get_params(deep=False))": C, "names containing `__`": S}
     spec = disj(neg(atom(U or "?")), atom(C or "?"), atom(S or "?"))
-    _decide(ctx, "R2", "_check_names:predicate", pc.raises, spec, need,
+    _decide(ctx, rule, "_check_names:predicate", pc.raises, spec, need,
             "rejects exactly: duplicate names, names that are constructor arguments, names containing `__`", ctx.loc(mod, fn), "_check_names",
             sites=(_n_sites(repo, mod, repo.cls(META + ":_HeterogenousMetaEstimator"), fn, pc), 3))
 
